@@ -629,6 +629,15 @@ def st_valid_text(draw, which):
         reps = draw(st.sampled_from(["2", "3", "5", ""]))
         text = ("R%s/%s/%s" % (reps, anchor, dur) if draw(st.booleans())
                 else "R%s/%s/%s" % (reps, dur, anchor))
+        if draw(st.integers(0, 5)) == 0:
+            # two points, the second not later than the first, with signed or
+            # reduced years (refused or not, depending on the parser's number
+            # of expanded year digits): the refusal message formats both
+            a, b = draw(st.sampled_from([
+                ("-0001", "-0002"), ("0001", "-0001"), ("+0002", "+0001"),
+                ("-000001", "-000002"), ("2001-01-01T00Z", "-0001"),
+                ("0002", "0001"), ("-0001-01-01T00Z", "-0001-01-01T00Z")]))
+            text = "R%s/%s/%s" % (reps, a, b)
         return text, None
     c1 = draw(c07.st_full())
     reps = draw(st.sampled_from(["", "", "1", "2", "3", "10", "0"]))
